@@ -111,6 +111,45 @@ pub fn status_kinds(v: &Value) -> Vec<dust_dds::infrastructure::status::StatusKi
     }).collect()).unwrap_or_default()
 }
 
+/// Recording listener for subscriber / publisher / participant level.
+pub struct RecAny {
+    pub core: Core,
+    pub level: &'static str,
+}
+impl RecAny {
+    fn log(&self, kind: &str) -> std::future::Ready<()> {
+        self.core.log(json!({"ev": "Listener", "level": self.level, "idx": 0, "kind": kind}));
+        std::future::ready(())
+    }
+}
+macro_rules! rec_reader_fns {
+    () => {
+        fn on_data_available(&mut self, _r: DataReaderAsync<()>) -> impl std::future::Future<Output = ()> + Send { self.log("DataAvailable") }
+        fn on_sample_rejected(&mut self, _r: DataReaderAsync<()>, _s: dust_dds::infrastructure::status::SampleRejectedStatus) -> impl std::future::Future<Output = ()> + Send { self.log("SampleRejected") }
+        fn on_requested_deadline_missed(&mut self, _r: DataReaderAsync<()>, _s: dust_dds::infrastructure::status::RequestedDeadlineMissedStatus) -> impl std::future::Future<Output = ()> + Send { self.log("RequestedDeadlineMissed") }
+        fn on_requested_incompatible_qos(&mut self, _r: DataReaderAsync<()>, _s: dust_dds::infrastructure::status::RequestedIncompatibleQosStatus) -> impl std::future::Future<Output = ()> + Send { self.log("RequestedIncompatibleQos") }
+        fn on_subscription_matched(&mut self, _r: DataReaderAsync<()>, _s: dust_dds::infrastructure::status::SubscriptionMatchedStatus) -> impl std::future::Future<Output = ()> + Send { self.log("SubscriptionMatched") }
+    };
+}
+macro_rules! rec_writer_fns {
+    () => {
+        fn on_offered_deadline_missed(&mut self, _w: DataWriterAsync<()>, _s: dust_dds::infrastructure::status::OfferedDeadlineMissedStatus) -> impl std::future::Future<Output = ()> + Send { self.log("OfferedDeadlineMissed") }
+        fn on_offered_incompatible_qos(&mut self, _w: DataWriterAsync<()>, _s: dust_dds::infrastructure::status::OfferedIncompatibleQosStatus) -> impl std::future::Future<Output = ()> + Send { self.log("OfferedIncompatibleQos") }
+        fn on_publication_matched(&mut self, _w: DataWriterAsync<()>, _s: dust_dds::infrastructure::status::PublicationMatchedStatus) -> impl std::future::Future<Output = ()> + Send { self.log("PublicationMatched") }
+    };
+}
+impl dust_dds::dds_async::subscriber_listener::SubscriberListener for RecAny {
+    fn on_data_on_readers(&mut self, _s: SubscriberAsync) -> impl std::future::Future<Output = ()> + Send { self.log("DataOnReaders") }
+    rec_reader_fns!();
+}
+impl dust_dds::dds_async::publisher_listener::PublisherListener for RecAny {
+    rec_writer_fns!();
+}
+impl dust_dds::dds_async::domain_participant_listener::DomainParticipantListener for RecAny {
+    rec_reader_fns!();
+    rec_writer_fns!();
+}
+
 pub struct Global {
     pub sim: Sim,
     pub factory: DomainParticipantFactoryAsync<SimNet>,
@@ -172,6 +211,7 @@ pub struct World {
     pub writers: Vec<Option<WriterCtx>>,
     pub readers: Vec<Option<ReaderCtx>>,
     pub decoys: Vec<DataWriterAsync<KeyedData>>,
+    pub conds: Vec<dust_dds::dds_async::condition::StatusConditionAsync>,
     pub domain: i32,
 }
 
@@ -244,7 +284,7 @@ pub fn reader_qos(q: &Value) -> DataReaderQos {
 
 impl World {
     pub fn new(domain: i32) -> Self {
-        World { core: global().sim.core.clone(), parts: vec![], writers: vec![], readers: vec![], decoys: vec![], domain }
+        World { core: global().sim.core.clone(), parts: vec![], writers: vec![], readers: vec![], decoys: vec![], conds: vec![], domain }
     }
 
     pub async fn add_participant(&mut self) -> usize {
@@ -700,6 +740,118 @@ impl World {
                 let _ = self.parts[1].p.delete_subscriber(&subscriber).await;
                 self.sleep_ms(50).await;
             }
+            "wait_set" => {
+                // WaitSetAsync::wait on the status condition of reader r (enabled statuses as given),
+                // with a simulated timeout, while the side script changes statuses / enabled masks
+                let ri = st["r"].as_u64().unwrap_or(0) as usize;
+                let Some(rc) = self.readers[ri].as_ref() else { return };
+                let cond = rc.r.get_statuscondition();
+                let _ = cond.set_enabled_statuses(&status_kinds(&st["enabled"])).await;
+                self.conds = vec![cond.clone()];
+                let mut ws = dust_dds::dds_async::wait_set::WaitSetAsync::new();
+                let _ = ws.attach_condition(dust_dds::dds_async::wait_set::ConditionAsync::StatusCondition(cond.clone())).await;
+                let ms = st["ms"].as_i64().unwrap_or(1000);
+                let t0 = core.now_ns();
+                let tv = cond.get_trigger_value().await.unwrap_or(false);
+                core.log(json!({"ev": "WaitCall", "r": ri, "ms": ms, "trigger": tv}));
+                let core2 = core.clone();
+                let op = async move { sim::with_timeout(&core2, ms * 1_000_000, ws.wait()).await };
+                let r = if st["during"].is_array() { self.with_side(op, &st["during"]).await } else { op.await };
+                let (res, n) = match r {
+                    Some(Ok(v)) => ("Ok".to_string(), v.len()),
+                    Some(Err(e)) => (err_name(&e), 0),
+                    None => ("Timeout".to_string(), 0),
+                };
+                let tv = cond.get_trigger_value().await.unwrap_or(false);
+                core.log(json!({"ev": "WaitRet", "r": ri, "res": res, "n": n, "dt": core.now_ns() - t0, "trigger": tv}));
+            }
+            "set_enabled" => {
+                if let Some(c) = self.conds.first() {
+                    let res = c.set_enabled_statuses(&status_kinds(&st["enabled"])).await;
+                    let tv = c.get_trigger_value().await.unwrap_or(false);
+                    core.log(json!({"ev": "TriggerObs", "after": "set_enabled", "trigger": tv, "res": res_name(&res)}));
+                }
+            }
+            "trigger_obs" => {
+                if let Some(c) = self.conds.first() {
+                    let tv = c.get_trigger_value().await.unwrap_or(false);
+                    core.log(json!({"ev": "TriggerObs", "after": "obs", "trigger": tv}));
+                }
+            }
+            "dispatch_case" => {
+                // one listener-dispatch configuration (StatusWait.tla Dispatch): the observed participant A has
+                // recording listeners at the three levels with the given masks; participant B is the remote peer
+                let g = global();
+                let kind = st["status"].as_str().unwrap_or("").to_string();
+                let on = |b: &Value, k: &str| -> Vec<dust_dds::infrastructure::status::StatusKind> { if b.as_bool().unwrap_or(false) { status_kinds(&json!([k])) } else { vec![] } };
+                let pmask = on(&st["pm"], &kind);
+                let mut gmask = on(&st["gm"], &kind);
+                if st["dor"].as_bool().unwrap_or(false) {
+                    gmask.extend(status_kinds(&json!(["DataOnReaders"])));
+                }
+                let emask = on(&st["em"], &kind);
+                let a = g.factory.create_participant(self.domain, QosKind::Default, Some(RecAny { core: core.clone(), level: "participant" }), &pmask).await.expect("participant A");
+                let b = g.factory.create_participant(self.domain, QosKind::Default, NO_LISTENER, NO_STATUS).await.expect("participant B");
+                let ta = a.create_topic::<KeyedData>("T", "KeyedData", QosKind::Default, NO_LISTENER, NO_STATUS).await.unwrap();
+                let tb = b.create_topic::<KeyedData>("T", "KeyedData", QosKind::Default, NO_LISTENER, NO_STATUS).await.unwrap();
+                let pa = a.create_publisher(QosKind::Default, Some(RecAny { core: core.clone(), level: "publisher" }), &gmask).await.unwrap();
+                let sa = a.create_subscriber(QosKind::Default, Some(RecAny { core: core.clone(), level: "subscriber" }), &gmask).await.unwrap();
+                let pb = b.create_publisher(QosKind::Default, NO_LISTENER, NO_STATUS).await.unwrap();
+                let sb = b.create_subscriber(QosKind::Default, NO_LISTENER, NO_STATUS).await.unwrap();
+                let reader_side = matches!(kind.as_str(), "SubscriptionMatched" | "DataAvailable" | "RequestedDeadlineMissed" | "SampleRejected" | "RequestedIncompatibleQos");
+                let mut aq_r = DataReaderQos::default();
+                let mut aq_w = DataWriterQos::default();
+                let mut bq_r = DataReaderQos::default();
+                let mut bq_w = DataWriterQos::default();
+                aq_r.reliability.kind = ReliabilityQosPolicyKind::Reliable;
+                bq_r.reliability.kind = ReliabilityQosPolicyKind::Reliable;
+                let d100 = DurationKind::Finite(Duration::new(0, 100_000_000));
+                match kind.as_str() {
+                    "RequestedDeadlineMissed" => { aq_r.deadline.period = d100; bq_w.deadline.period = d100; }
+                    "OfferedDeadlineMissed" => { aq_w.deadline.period = d100; bq_r.deadline.period = d100; }
+                    "SampleRejected" => { aq_r.history.kind = HistoryQosPolicyKind::KeepAll; aq_r.resource_limits.max_samples = Length::Limited(1); aq_r.resource_limits.max_samples_per_instance = Length::Limited(1); }
+                    "RequestedIncompatibleQos" => { bq_w.reliability.kind = ReliabilityQosPolicyKind::BestEffort; }
+                    "OfferedIncompatibleQos" => { aq_w.reliability.kind = ReliabilityQosPolicyKind::BestEffort; }
+                    _ => {}
+                }
+                core.log(json!({"ev": "DispatchCase", "status": kind, "em": st["em"], "gm": st["gm"], "pm": st["pm"], "dor": st["dor"], "id": st["id"]}));
+                if reader_side {
+                    let ra = sa.create_datareader::<KeyedData>(&ta, QosKind::Specific(aq_r), Some(RecReaderListener { core: core.clone(), level: "reader", idx: 0 }), &emask).await;
+                    self.sleep_ms(100).await;
+                    let wb = pb.create_datawriter::<KeyedData>(&tb, QosKind::Specific(bq_w), NO_LISTENER, NO_STATUS).await;
+                    self.sleep_ms(300).await;
+                    if let (Ok(_ra), Ok(wb)) = (&ra, &wb) {
+                        if matches!(kind.as_str(), "DataAvailable" | "RequestedDeadlineMissed" | "SampleRejected") {
+                            let _ = wb.write(KeyedData { id: 1, w: 0, seq: 1, data: vec![1] }, None).await;
+                            if kind == "SampleRejected" {
+                                let _ = wb.write(KeyedData { id: 1, w: 0, seq: 2, data: vec![2] }, None).await;
+                            }
+                            self.sleep_ms(330).await;
+                        }
+                    } else {
+                        core.log(json!({"ev": "DispatchSkip", "why": format!("reader {} writer {}", res_name(&ra), res_name(&wb))}));
+                    }
+                } else {
+                    let wa = pa.create_datawriter::<KeyedData>(&ta, QosKind::Specific(aq_w), Some(RecWriterListener { core: core.clone(), level: "writer", idx: 0 }), &emask).await;
+                    self.sleep_ms(100).await;
+                    let rb = sb.create_datareader::<KeyedData>(&tb, QosKind::Specific(bq_r), NO_LISTENER, NO_STATUS).await;
+                    self.sleep_ms(300).await;
+                    if let (Ok(wa), Ok(_rb)) = (&wa, &rb) {
+                        if kind == "OfferedDeadlineMissed" {
+                            let _ = wa.write(KeyedData { id: 1, w: 0, seq: 1, data: vec![1] }, None).await;
+                            self.sleep_ms(330).await;
+                        }
+                    } else {
+                        core.log(json!({"ev": "DispatchSkip", "why": format!("writer {} reader {}", res_name(&wa), res_name(&rb))}));
+                    }
+                }
+                core.log(json!({"ev": "DispatchEnd", "id": st["id"]}));
+                let _ = a.delete_contained_entities().await;
+                let _ = b.delete_contained_entities().await;
+                let _ = g.factory.delete_participant(&a).await;
+                let _ = g.factory.delete_participant(&b).await;
+                self.sleep_ms(20).await;
+            }
             "final" => {
                 core.log(json!({"ev": "Final"}));
             }
@@ -746,6 +898,7 @@ impl World {
         self.writers.clear();
         self.readers.clear();
         self.decoys.clear();
+        self.conds.clear();
         {
             let mut c = self.core.lock();
             c.user_faults = FaultMode::default();
